@@ -85,3 +85,41 @@ def shrink_candidates(case):
                     break
                 q = toks[:i] + toks[i + 1:]
                 yield " ; ".join(parts[:pi] + [" ".join(q)] + parts[pi + 1:])
+
+
+def t2(chk, wc, tier, seed):
+    """how the reduce-merge reader and its cursors treat a failing input, regenerated from sortio/reader.go and sortio/sort.go:
+    an error is sticky; at set-up a failing Fill returns (0, err); in a round the refill of a used-up cursor that fails returns
+    `n, err` *before* the round's row is counted; Fill is one Read, an error other than EOF is returned as it is and an empty
+    read is end-of-stream (BS.Merge.ereduce)."""
+    import re
+    import vlib
+    rd = open(wc.repo + "/sortio/reader.go").read()
+    st = open(wc.repo + "/sortio/sort.go").read()
+    try:
+        body = rd[rd.index("func (r *reader) Read("):]
+        body = body[:body.index("\n}\n")]
+    except ValueError:
+        body = ""
+    sticky = re.search(r"func \(r \*reader\) Read\([^)]*\) \(int, error\) \{\n\tif r\.err != nil \{\n\t\treturn 0, r\.err\n\t\}", rd) is not None
+    setup = re.search(r"case err != nil:\n\t+r\.err = err\n\t+return 0, r\.err", body) is not None
+    refill = re.search(r"if err := buf\.Fill\(ctx\); err != nil && err != sliceio\.EOF \{\n\t+r\.err = err\n\t+return n, err\n", body)
+    count = body.find("\t\tn++\n")
+    before = refill is not None and count > refill.start()
+    try:
+        fill = st[st.index("func (f *FrameBuffer) Fill("):]
+        fill = fill[:fill.index("\n}\n")]
+    except ValueError:
+        fill = ""
+    one_read = fill.count(".Read(") == 1
+    err_as_is = re.search(r"if err != nil && err != sliceio\.EOF \{\n\t\treturn err\n\t\}", fill) is not None
+    empty_eof = re.search(r"if f\.Len == 0 && err == nil \{\n\t\terr = sliceio\.EOF", fill) is not None
+    gen = "\n".join("def %s : Bool := %s" % (n, "true" if v else "false") for n, v in (
+        ("stickyErrorG", sticky), ("setupErrorReturnedG", setup), ("refillErrorBeforeCountG", before), ("fillIsOneReadG", one_read),
+        ("fillReturnsErrorG", err_as_is), ("emptyReadIsEofG", empty_eof)))
+    ties = [("reduce_error_order_tie",
+             "theorem reduce_error_order_tie : stickyErrorG = true ∧ setupErrorReturnedG = true ∧ refillErrorBeforeCountG = true ∧ "
+             "fillIsOneReadG = true ∧ fillReturnsErrorG = true ∧ emptyReadIsEofG = true := by decide",
+             "sortio/reader.go (*reader).Read, sortio/sort.go (*FrameBuffer).Fill: where an input's error is returned (BS.Merge.ereduce: "
+             "anyDead at set-up, and after the advance of a round, whose row is then not delivered)")]
+    vlib.t2_check(chk, wc, "C10", ["BS.Model.MergeErr"], gen, ties)
